@@ -148,7 +148,283 @@ def gen_scen(rng, idx):
     mustclose = [i for i, k in enumerate(carriers) if k["kind"] == "badtoken" or (k["kind"] in ("good", "garbage") and not k["open"] and k.get("cid"))]
     if mustclose:
         ops.append("z" + "".join("@k%d" % i for i in mustclose))
-    return ops, mops, dict(cids=cids, carriers=carriers, written=written, deterministic=deterministic, expdown=expdown)
+    return ops, mops, dict(cids=cids, carriers=carriers, written=written, deterministic=deterministic, expdown=expdown,
+                           closed_cids=sorted(closed_cids))
+
+
+# ------------------------------------------------------------------ timed scenarios (retention of the client map)
+
+RETENTION = 60000    # clientMapTimeout in ms; the driver uses the server's own constant for this value
+
+
+def timed_long(rng, mops):
+    """the scenario of gen_scen on the timed model with the server's retention: clock readings on every op that reaches
+    ClientMap.SendQueue, one idle gap of up to just under the retention somewhere, the sweeper running at arbitrary
+    moments. The whole scenario spans less than the retention, so nothing may expire."""
+    base = rng.choice([0, 0, 1, 1700000000000, -5, rng.randrange(0, 1 << 40)])
+    budget = RETENTION - 1
+    steps = [rng.choice([0, 0, 1, 2, 7, 20]) for _ in mops]
+    small = sum(steps)
+    gap = rng.choice([0, 1, 30000, budget - small, budget - small, rng.randrange(0, budget - small + 1)])
+    gap_at = rng.randrange(0, len(mops) + 1)
+    now = base
+    out = []
+    for j, (op, st) in enumerate(zip(mops, steps)):
+        if j == gap_at:
+            # the sweeper runs every half retention during the gap, and right at its end
+            k = now + RETENTION // 2
+            while k < now + gap:
+                out.append("v%d" % k)
+                k += RETENTION // 2
+            now += gap
+            out.append("v%d" % now)
+        now += st
+        if rng.random() < 0.1:
+            out.append("v%d" % now)
+        if op[0] in "rws":
+            out.append("%s:%d" % (op, now))
+        else:
+            out.append(op)
+    out.append("v%d" % (base + small + gap))
+    return out
+
+
+def gen_expiry(rng, idx, tmo):
+    """an idle gap LONGER than retention + sweep period (the driver really waits 1.75 timeouts with a short timeout):
+    every queue expires; packets queued for a session without a carrier are lost, an idle attached carrier is closed
+    by the server, and afterwards the session gets a NEW queue that delivers only what was written after the gap."""
+    cids = ["%016x" % rng.getrandbits(64) for _ in range(rng.randrange(1, 3))]
+    ops, mops = [], []
+    now = [rng.randrange(0, 1000)]
+    carriers = []     # dict(cid, open)
+    expdown = {}
+    downn = {}
+    pk = [0]
+
+    def tick():
+        now[0] += rng.choice([0, 1, 3])
+
+    def newpkt():
+        pk[0] += 1
+        return ("%04x%04x" % (idx & 0xffff, pk[0])) + "".join("%02x" % rng.randrange(256) for _ in range(rng.choice([0, 1, 5, 40])))
+
+    def attach(c):
+        i = len(carriers)
+        carriers.append(dict(cid=c, kind="good", open=True, sent=[]))
+        ops.append("n"); mops.append("n")
+        tick()
+        ops.append("r%d:x%s" % (i, TOKEN + c)); mops.append("r%d:x%s:%d" % (i, TOKEN + c, now[0]))
+        return i
+
+    def write(c, deliver_to):
+        p = newpkt()
+        tick()
+        ops.append("w:x%s:x%s" % (c, p)); mops.append("w:x%s:x%s:%d" % (c, p, now[0]))
+        if deliver_to is not None:
+            mops.append("s%d:%d" % (deliver_to, now[0]))
+            expdown.setdefault(deliver_to, []).append(p)
+            downn[deliver_to] = downn.get(deliver_to, 0) + len(prefix(len(p) // 2)) // 2 + len(p) // 2
+            ops[-1] += "@d%d=%d" % (deliver_to, downn[deliver_to])
+        return p
+
+    lost = []
+    attached = {}
+    for c in cids:
+        mode = rng.choice(["idle-carrier", "no-carrier", "closed-carrier"])
+        if mode != "no-carrier":
+            i = attach(c)
+            for _ in range(rng.randrange(0, 3)):
+                write(c, i)
+            if mode == "closed-carrier":
+                ops.append("c%d" % i); mops.append("c%d" % i)
+                carriers[i]["open"] = False
+            else:
+                attached[c] = i
+        if mode != "idle-carrier":
+            for _ in range(rng.randrange(1, 4)):
+                lost.append(write(c, None))
+    # the gap: in the model the sweeper runs once, 1.75 timeouts after the last touch
+    now[0] += tmo + tmo // 2 + tmo // 4
+    ops.append("V%d" % now[0]); mops.append("V%d" % now[0])
+    for c, i in attached.items():
+        # the write loop of the idle carrier finds its queue closed and closes the carrier
+        mops.append("s%d:%d" % (i, now[0]))
+        carriers[i]["open"] = False
+        carriers[i]["expired"] = True
+    if attached:
+        ops[-1] += "".join("@k%d" % i for i in attached.values())
+    for c in cids:
+        if rng.random() < 0.8:
+            i = attach(c)
+            for _ in range(rng.randrange(1, 3)):
+                write(c, i)
+        else:
+            write(c, None)
+    return ops, mops, dict(cids=cids, carriers=carriers, expdown=expdown, lost=lost)
+
+
+# ------------------------------------------------------------------ moving sessions through Listen/Accept
+
+def kcp_seg(conv, sn, data, ts=0, una=0, wnd=128):
+    import struct
+    return struct.pack("<IBBHIIII", conv, 81, 0, wnd, ts & 0xffffffff, sn, una, len(data)) + data
+
+
+def smux_frame(cmd, sid, data=b""):
+    import struct
+    return struct.pack("<BBHI", 2, cmd, len(data), sid) + data
+
+
+def gen_move(rng, idx):
+    """1..3 client sessions (ClientID, KCP conversation, one smux stream, application bytes), each moving over several
+    carriers: sequentially, overlapping, or after an idle gap shorter than the retention; a new carrier re-sends
+    segments the old one already carried (as KCP does) and continues. Returns impl ops, model ops, meta."""
+    nsess = rng.randrange(1, 4)
+    S = []
+    for j in range(nsess):
+        cid = "%016x" % rng.getrandbits(64)
+        conv = rng.choice([rng.getrandbits(32), 1, 0xffffffff, 0x00f10000 | rng.getrandbits(16)])
+        app = bytes([(idx + j) & 255]) + bytes(rng.randrange(256) for _ in range(rng.choice([1, 5, 40, 200, 700])))
+        sid = rng.choice([1, 3, 7])
+        stream = smux_frame(0, sid)
+        pos = 0
+        while pos < len(app):
+            n = rng.choice([1, 3, 16, 100, 400])
+            stream += smux_frame(2, sid, app[pos:pos + n])
+            pos += n
+        segs, pos = [], 0
+        while pos < len(stream):
+            n = rng.choice([1, 7, 8, 20, 60, 300])
+            segs.append(kcp_seg(conv, len(segs), stream[pos:pos + n], ts=rng.getrandbits(20)))
+            pos += n
+        S.append(dict(cid=cid, conv=conv, app=app, segs=segs, sent=0, carriers=[], hops=rng.randrange(1, 4), mode=None))
+    if nsess > 1 and rng.random() < 0.3:
+        S[1]["conv"] = S[0]["conv"]      # same KCP conversation id in two sessions: only the ClientID tells them apart
+        S[1]["segs"] = [kcp_seg(S[0]["conv"], k, s[24:]) for k, s in enumerate(S[1]["segs"])]
+    ops, mops = [], []
+    base = rng.choice([0, 5, 1700000000000])
+    now = [base]
+    ncar = [0]
+    kinds = set()
+
+    def both(o, timed=False):
+        ops.append(o)
+        mops.append(o + (":%d" % now[0] if timed else ""))
+
+    def send(i, hexbytes):
+        pos = 0
+        while pos < len(hexbytes):
+            n = 2 * rng.choice([1, 5, 24, 30, 100, 1000])
+            now[0] += rng.choice([0, 1])
+            both("r%d:x%s" % (i, hexbytes[pos:pos + n]), timed=True)
+            pos += n
+
+    def new_carrier(s):
+        i = ncar[0]
+        ncar[0] += 1
+        both("n")
+        s["carriers"].append(i)
+        send(i, TOKEN + s["cid"])
+        return i
+
+    def seg_hex(seg):
+        return prefix(len(seg)) + seg.hex()
+
+    def progress(s, i, upto, replay):
+        # re-send what the previous carrier carried (all of it, or a suffix / random part), then continue up to `upto`
+        if replay == "all":
+            idxs = list(range(0, s["sent"]))
+        elif replay == "some":
+            idxs = [k for k in range(0, s["sent"]) if rng.random() < 0.5]
+        else:
+            idxs = []
+        idxs += list(range(s["sent"], upto))
+        if rng.random() < 0.2:
+            rng.shuffle(idxs)         # KCP copes with reordering
+        for k in idxs:
+            send(i, seg_hex(s["segs"][k]))
+        s["sent"] = max(s["sent"], upto)
+
+    active = list(range(nsess))
+    cur = {}      # session -> current carrier
+    while active:
+        j = rng.choice(active)
+        s = S[j]
+        last = s["hops"] <= 1
+        upto = len(s["segs"]) if last else rng.randrange(s["sent"], len(s["segs"]) + 1)
+        if j not in cur:
+            cur[j] = new_carrier(s)
+            progress(s, cur[j], upto, None)
+        else:
+            mode = rng.choice(["sequential", "overlapping", "gap", "cut-mid-packet"])
+            kinds.add(mode)
+            old = cur[j]
+            if mode == "sequential":
+                both("c%d" % old)
+                cur[j] = new_carrier(s)
+            elif mode == "overlapping":
+                cur[j] = new_carrier(s)
+                # the old carrier keeps sending for a while, too
+                if s["sent"] < upto:
+                    k = s["sent"]
+                    send(old, seg_hex(s["segs"][k]))
+            elif mode == "gap":
+                both("c%d" % old)
+                g = rng.choice([20, 80, 250])
+                ops.append("g%d" % g)
+                # model: an idle gap of anything below the retention, the sweeper running in between
+                gm = min(rng.choice([g, 30000, RETENTION - 1]), max(0, RETENTION - 1 - (now[0] - base)))
+                k = now[0] + RETENTION // 2
+                while k < now[0] + gm:
+                    mops.append("v%d" % k)
+                    k += RETENTION // 2
+                now[0] += gm
+                mops.append("v%d" % now[0])
+                cur[j] = new_carrier(s)
+            else:
+                # the old carrier is cut in the middle of a segment (the partial chunk must not surface)
+                if s["sent"] < len(s["segs"]):
+                    h = seg_hex(s["segs"][s["sent"]])
+                    cut = 2 * rng.randrange(1, len(h) // 2)
+                    send(old, h[:cut])
+                both("c%d" % old)
+                cur[j] = new_carrier(s)
+            progress(s, cur[j], upto, rng.choice(["all", "all", "some", None]))
+        s["hops"] -= 1
+        if last:
+            # make sure everything was carried at least once in full, and always re-send from sn 0 on the last carrier:
+            # harmless for one session, but a session that was split on the move then shows up as a second connection
+            if len(s["carriers"]) > 1:
+                for k in range(len(s["segs"])):
+                    send(cur[j], seg_hex(s["segs"][k]))
+            active.remove(j)
+    total = sum(len(s["app"]) for s in S)
+    ops.append("z@a%d@t%d" % (nsess, total))
+    return ops, mops, dict(sessions=[dict(cid=s["cid"], conv=s["conv"], app=s["app"].hex(), ncarriers=len(s["carriers"])) for s in S],
+                           kinds=sorted(kinds) or ["single-carrier"])
+
+
+def check_move(meta, d, md):
+    """the property on the implementation's answer (d) and the comparison with the model's listener view (md)"""
+    bad = []
+    sess = meta["sessions"]
+    streams = [] if d.get("st", "-") == "-" else [x[1:] for x in d["st"].split(",")]
+    acc = int(d.get("accepted", "-1"))
+    want = sorted(s["app"] for s in sess)
+    if acc > len(sess):
+        bad.append(("session-split-on-move", "%d client session(s), each moving over its carriers, surfaced as %d accepted connections" % (len(sess), acc)))
+    elif acc < len(sess):
+        bad.append(("session-merged", "%d client sessions with distinct ClientIDs surfaced as %d accepted connection(s)" % (len(sess), acc)))
+    else:
+        if sorted(streams) != want:
+            for st in streams:
+                if st not in want:
+                    pre = [w for w in want if w.startswith(st)]
+                    bad.append(("session-stream-broken", "an accepted connection delivered %d bytes that are %s of any session's stream" % (
+                        len(st) // 2, "only a strict prefix (the stream did not continue on the next carrier)" if pre else "not a prefix")))
+                    break
+    macc = [] if md.get("acc", "-") == "-" else md["acc"].split(",")
+    return bad, len(macc)
 
 
 def parse_impl(o):
@@ -212,22 +488,109 @@ def check_props(meta, d):
     return bad
 
 
+def subseq(a, b):
+    it = iter(b)
+    return all(x in it for x in a)
+
+
+def check_log(meta, d, md):
+    """the downstream side relationally, for every scenario (also those where the scheduler chooses between two open
+    carriers of one ClientID): the model's log of packets taken off the queues, followed by what is still queued,
+    is per ClientID what WriteTo accepted, in order (C05_downstream_exactly_once_in_order); every carrier of the
+    implementation must have been written an in-order subsequence of that, and together they must have been written
+    everything when a carrier stayed attached (at most one packet may die with each carrier the peer closed)."""
+    bad, notshown = [], []
+    log = [] if md.get("log", "-") == "-" else [x.split(":") for x in md["log"].split(",")]
+    q = [] if md.get("q", "-") == "-" else [x.split(":") for x in md["q"].split(",")]
+    order = {}
+    for o, c, p in log:
+        order.setdefault(c[1:], []).append(p[1:])
+    for c, p in q:
+        order.setdefault(c[1:], []).append(p[1:])
+    for c in meta["cids"]:
+        if order.get(c, []) != meta["written"].get(c, []):
+            notshown.append("model: log + queue of ClientID %s is not what WriteTo was given" % c)
+    # the model's own carriers are written exactly their log entries
+    for i, k in enumerate(meta["carriers"]):
+        mf = md.get("k%d" % i, "::x").split(":")
+        chunks, err = c09.py_decode(mf[2][1:])
+        if chunks != [p[1:] for o, c, p in log if o == str(i)]:
+            notshown.append("model: carrier %d's wire is not its log entries" % i)
+    got = {}
+    for i, k in enumerate(meta["carriers"]):
+        if k["kind"] not in ("good", "garbage") or not k["cid"]:
+            continue
+        st, wire = d.get("k%d" % i, "open:x").split(":")
+        chunks, err = c09.py_decode(wire[1:])
+        acc = order.get(k["cid"], [])
+        if all(p in acc for p in chunks) and not subseq(chunks, acc):
+            bad.append(("downstream-reordered", "carrier %d (ClientID %s) was written its packets in an order different from the order WriteTo "
+                        "accepted them: %s" % (i, k["cid"], ",".join(p[:8] for p in chunks[:6]))))
+        got.setdefault(k["cid"], []).extend(chunks)
+    for c in meta["cids"]:
+        mine = [k for k in meta["carriers"] if k["cid"] == c and k["kind"] in ("good", "garbage")]
+        attached = [k for k in mine if k["open"]]
+        closed = [k for k in mine if not k["open"]]
+        acc = order.get(c, [])
+        missing = [p for p in acc if p not in got.get(c, [])]
+        if attached and len(missing) > len(closed):
+            bad.append(("downstream-not-delivered", "ClientID %s has a carrier attached, yet %d of the %d packets written to it reached no carrier "
+                        "(%d carrier(s) of it were closed by the peer and may each have taken one packet with them)" % (
+                            c, len(missing), len(acc), len(closed))))
+    return bad, notshown
+
+
+def fields_equal(meta, d, md, states=True):
+    """model and implementation on the projected observables: upstream packets in order, per carrier the downstream bytes
+    and whether the server closed it"""
+    if d.get("up") != md.get("up"):
+        return False
+    for i, k in enumerate(meta["carriers"]):
+        ist, iw = d.get("k%d" % i, ":x").split(":")
+        mf = md.get("k%d" % i, "::").split(":")
+        if iw != mf[2]:
+            return False
+        if states and (mf[0] == "dead") != (ist == "closed") and k["kind"] != "short":
+            return False
+    return True
+
+
 def run(ctx):
     exe = vlib.go_test_build("./server/lib", name="serverlib.test")
     env = dict(os.environ, VERIF_DRIVER="c05")
     ctx.assumptions += ["model = coq/Model/CarrierLayer.v over Model/Encap.v; QueuePacketConn queues as bounded FIFOs (proved for the code in C17)",
-                        "which of two simultaneously open carriers of one ClientID takes a packet is the scheduler's choice: checked relationally",
-                        "kcp-go/smux ('exactly one accepted connection whose stream continues') are outside the model: observed by C18's and C01's black-box runs"]
-    ctx.trusted.append("harness/overlay/server/lib/zz_verif_c05_test.go (real httpHandler + gorilla/websocket carriers, driver-owned QueuePacketConn)")
-    n = 220 if ctx.tier == "quick" else 2500
+                        "timed model = coq/Model/CarrierTimed.v: the carrier layer composed with C17's client-map model (explicit clock); the driver's "
+                        "real time stays far inside the model's nominal time (gaps below the retention are milliseconds for the driver; the gap beyond "
+                        "it is really waited for, 1.75 x a 2 s timeout)",
+                        "which of two simultaneously open carriers of one ClientID takes a packet is the scheduler's choice: checked relationally "
+                        "against the model's log of packets taken off the queues",
+                        "kcp-go's session demultiplexing (by RemoteAddr().String() = ClientID, conversation id, sn) is modelled (listener_view) and "
+                        "observed through the real Accept path with hand-made KCP/smux segments; KCP's ARQ and smux are libraries, not modelled"]
+    ctx.trusted.append("harness/overlay/server/lib/zz_verif_c05_test.go (real httpHandler + gorilla/websocket carriers; driver-owned QueuePacketConn for "
+                       "run/trun, the wiring of Transport.Listen with kcp.ServeConn/acceptSessions/Accept for move)")
+    quick = ctx.tier == "quick"
+    n = 220 if quick else 2500
     scen = [gen_scen(ctx.rng, i) for i in range(n)]
+    nt = 70 if quick else 700
+    timed = [(scen[i], timed_long(ctx.rng, scen[i][1])) for i in range(nt)]
+    TMO = 2000
+    expiry = [gen_expiry(ctx.rng, i, TMO) for i in range(3 if quick else 16)]
+    moves = [gen_move(ctx.rng, i) for i in range(40 if quick else 400)]
     lines = ["carrierlayer run " + ",".join(ops) for ops, _, _ in scen]
-    rc, out, err = vlib.run_impl(exe, lines, args=["-test.run", "^TestVerifC05Driver$"], env=env, timeout=1200)
+    lines += ["carrierlayer trun %d %s" % (RETENTION, ",".join(sc[0])) for sc, _ in timed]
+    lines += ["carrierlayer trun %d %s" % (TMO, ",".join(ops)) for ops, _, _ in expiry]
+    lines += ["carrierlayer move " + ",".join(ops) for ops, _, _ in moves]
+    rc, out, err = vlib.run_impl(exe, lines, args=["-test.run", "^TestVerifC05Driver$"], env=env, timeout=1800)
     if rc != 0 or len(out) != len(lines):
         ctx.violation("driver-crash", "server carrier driver died rc=%s: %s" % (rc, err[-800:]), dict(stderr=err[-3000:]))
         return
     mlines = ["carrierlayer run " + ",".join(mops) for _, mops, _ in scen]
+    mlines += ["carrierlayer trun %d %s" % (RETENTION, ",".join(tm)) for _, tm in timed]
+    mlines += ["carrierlayer trun %d %s" % (TMO, ",".join(mops)) for _, mops, _ in expiry]
+    mlines += ["carrierlayer trun %d %s" % (RETENTION, ",".join(mops)) for _, mops, _ in moves]
     mout = vlib.run_model(mlines)
+    pos = 0
+    # ---- untimed scenarios
     for (ops, mops, meta), line, o, ml, mo in zip(scen, lines, out, mlines, mout):
         kinds = "+".join(sorted(set(k["kind"] for k in meta["carriers"]))) + ("" if meta["deterministic"] else "+shared-cid")
         ctx.count(line, kind=kinds)
@@ -236,22 +599,84 @@ def run(ctx):
             ctx.violation("request-" + o.split(" ")[0].strip("!:"), "driver failure: " + o[:200], rep)
             continue
         d = parse_impl(o)
+        md = parse_impl(mo)
         for key, text in check_props(meta, d):
             ctx.violation(key, text, rep)
-        md = parse_impl(mo)
-        # upstream is deterministic (ops are settled one by one)
+        lbad, lns = check_log(meta, d, md)
+        for key, text in lbad:
+            ctx.violation(key, text, rep)
+        for t in lns:
+            ctx.not_shown("correspondence carrierlayer: %s: case=%s model=%s" % (t, ml[:400], mo[:300]))
+        # upstream is deterministic (ops are settled one by one); downstream bytes too unless the scheduler has a choice
         same = d.get("up") == md.get("up")
         if same and meta["deterministic"]:
-            for i, k in enumerate(meta["carriers"]):
-                ist, iw = d.get("k%d" % i, ":x").split(":")
-                mf = md.get("k%d" % i, "::").split(":")
-                if iw != mf[2]:
-                    same = False
-                if (mf[0] == "dead") != (ist == "closed") and k["kind"] != "short":
-                    same = False
+            same = fields_equal(meta, d, md)
         if not same:
             ctx.not_shown("correspondence carrierlayer: model and implementation disagree: case=%s impl=%s model=%s" % (ml[:400], o[:300], mo[:300]))
+    pos = len(scen)
+    # ---- the same scenarios on the timed model with the server's retention (nothing may expire)
+    for j, (sc, tm) in enumerate(timed):
+        ops, mops, meta = sc
+        line, o, ml, mo = lines[pos + j], out[pos + j], mlines[pos + j], mout[pos + j]
+        ctx.count(line, kind="timed:" + ("deterministic" if meta["deterministic"] else "shared-cid"))
+        rep = dict(case=line[:8000], impl=o[:3000], model=mo[:3000], model_case=ml[:8000])
+        if o.startswith("!"):
+            ctx.violation("request-" + o.split(" ")[0].strip("!:"), "driver failure: " + o[:200], rep)
+            continue
+        d, md, mu = parse_impl(o), parse_impl(mo), parse_impl(mout[j])
+        for key, text in check_props(meta, d):
+            ctx.violation(key, text, rep)
+        # the timed model refines the untimed one when nothing expires
+        if mu.get("up") != md.get("up") or any(md.get("k%d" % i) != mu.get("k%d" % i) for i in range(len(meta["carriers"]))):
+            ctx.not_shown("timed and untimed model disagree although nothing can expire: case=%s timed=%s untimed=%s" % (ml[:400], mo[:300], mout[j][:300]))
+        if md.get("lost", "-") != "-":
+            ctx.not_shown("timed model lost packets although nothing can expire: case=%s model=%s" % (ml[:400], mo[:300]))
+        same = d.get("up") == md.get("up")
+        if same and meta["deterministic"]:
+            same = fields_equal(meta, d, md)
+        if not same:
+            ctx.not_shown("correspondence carrierlayer (timed): model and implementation disagree: case=%s impl=%s model=%s" % (ml[:400], o[:300], mo[:300]))
+    pos += len(timed)
+    # ---- beyond the retention
+    for j, (ops, mops, meta) in enumerate(expiry):
+        line, o, ml, mo = lines[pos + j], out[pos + j], mlines[pos + j], mout[pos + j]
+        ctx.count(line, kind="expiry")
+        rep = dict(case=line[:8000], impl=o[:3000], model=mo[:3000], model_case=ml[:8000])
+        if o.startswith("!"):
+            ctx.violation("request-" + o.split(" ")[0].strip("!:"), "driver failure: " + o[:200], rep)
+            continue
+        d, md = parse_impl(o), parse_impl(mo)
+        # property: nothing crosses sessions, nothing is written twice, also around an expiry
+        seen = {}
+        for i, k in enumerate(meta["carriers"]):
+            st, wire = d.get("k%d" % i, "open:x").split(":")
+            chunks, e = c09.py_decode(wire[1:])
+            for p in chunks:
+                seen[p] = seen.get(p, 0) + 1
+        for p, cnt in seen.items():
+            if cnt > 1:
+                ctx.violation("downstream-duplicated", "packet %s.. was written to %d carriers" % (p[:16], cnt), rep)
+        if not fields_equal(meta, d, md):
+            ctx.not_shown("correspondence carrierlayer (expiry): model and implementation disagree: case=%s impl=%s model=%s" % (ml[:500], o[:300], mo[:300]))
+    pos += len(expiry)
+    # ---- moving sessions through Accept
+    for j, (ops, mops, meta) in enumerate(moves):
+        line, o, ml, mo = lines[pos + j], out[pos + j], mlines[pos + j], mout[pos + j]
+        ctx.count(line, kind="move:" + "+".join(meta["kinds"]))
+        rep = dict(case=line[:12000], impl=o[:3000], model=mo[:3000], model_case=ml[:12000])
+        if o.startswith("!"):
+            ctx.violation("request-" + o.split(" ")[0].strip("!:"), "driver failure: " + o[:200], rep)
+            continue
+        d, md = parse_impl(o), parse_impl(mo)
+        bad, macc = check_move(meta, d, md)
+        for key, text in bad:
+            ctx.violation(key, text, rep)
+        if macc != len(meta["sessions"]):
+            ctx.not_shown("model: listener view has %d connections for %d sessions: case=%s model=%s" % (macc, len(meta["sessions"]), ml[:400], mo[:300]))
+        if not bad and int(d.get("accepted", -1)) != macc:
+            ctx.not_shown("correspondence carrierlayer (move): accepted connections differ: case=%s impl=%s model=%s" % (ml[:400], o[:200], mo[:300]))
     sample = [(l, m) for l, m in zip(mlines, mout) if len(l) < 600][:20]
+    sample += [(l, m) for l, m in zip(mlines[len(scen):], mout[len(scen):]) if len(l) < 900][:12]
     for i in vlib.coq_crosscheck(sample):
         ctx.not_shown("extraction cross-check differs on " + sample[i][0][:300])
     ctx.extra["vm_compute_crosschecked"] = len(sample)
